@@ -880,6 +880,7 @@ func mapArrCalls() []arrCall {
 	c := func(name string, args ...*V) arrCall { return arrCall{name, args} }
 	return []arrCall{
 		c("sort", VStr("k")), c("sort", VStr("o")), c("sort", VStr("zz")), c("sort", VInt(0, 5)), c("sort"),
+		c("sort", VStr("size")), c("sort_natural", VStr("size")), // a key named like the size fallback of property lookup: entries lacking it still go first
 		c("sort_natural", VStr("k")), c("sort_natural", VStr("s")), c("sort_natural", VStr("zz")), c("sort_natural", VInt(0, 5)), c("sort_natural", VBool(true)),
 		c("sort_natural", VAnys(VInt(0, 1))), c("sort_natural"),
 		c("map", VStr("k")), c("map", VStr("o")), c("map", VStr("size")), c("map", VStr("zz")), c("map"), c("map", VInt(0, 5)),
@@ -892,6 +893,7 @@ func mapElemUniverse() []*V {
 	return []*V{
 		VStrMap(SKV("k", i(1))), VStrMap(SKV("k", i(2))), VStrMap(SKV("k", i(1)), SKV("o", i(7))), VStrMap(SKV("k", VStr("a")), SKV("s", VStr("b"))),
 		VStrMap(SKV("k", VStr("B")), SKV("s", VStr("A"))), VStrMap(SKV("k", VNil())), VStrMap(SKV("o", i(3))), VNil(), i(5),
+		VStrMap(SKV("size", i(0)), SKV("k", i(3))),
 	}
 }
 
